@@ -80,3 +80,11 @@ package oauth2
 //@ iface (ScopesMatcher).Match
 //@   props C05
 //@   modifies nothing
+
+//@ func (HierarchicScopeStrategyMatcher).doMatch
+//@   props C05
+//@   modifies nothing
+
+//@ func (WildcardScopeStrategyMatcher).doMatch
+//@   props C05
+//@   modifies nothing
